@@ -54,7 +54,7 @@ MANIFEST = {
             "comparison of lazily read chunks, bytes written before/after field access, twice-application equality.",
     "note": "partial: the Lean theorems assume the view/copy tags of NumPy steps (assumption list in evidence); what detects a real "
             "mutation is the implementation-side snapshot check. Functions are exercised on the registry's argument generators only "
-            "(89 registry entries, 16 file formats incl. BAM/gz/CRLF/multi-chunk; half of the calls pass arguments as VIEWS of larger "
+            "(221 registry entries x 4 argument variants (plain / view of a larger base / read-only / zero rows), 16 file formats incl. BAM/gz/CRLF/multi-chunk; half of the calls pass arguments as VIEWS of larger "
             "arrays whose base is snapshotted too). Measured (16 cores, seeds 0-3): quick 10-27 s / 2.7k calls, thorough 93-147 s / 52k "
             "calls. Defect found and fixed in /repo: 4991739 (GenotypeRowEncoding.encode rewrote newlines in the caller's array).",
     "technique": "Lean 4 heap-model frame theorem (induction over programs) + implementation-side before/after snapshot registry "
@@ -116,6 +116,9 @@ def snap(x, depth=0, lazy_fields=False, result=False):
     from npstructures import RaggedArray
     if depth > 8:
         return ("deep",)
+    if isinstance(x, PathArg):
+        with open(x, "rb") as f:
+            return ("file", f.read())
     if x is None or isinstance(x, (bool, int, str, bytes)):
         return x
     if isinstance(x, float):
@@ -256,6 +259,8 @@ def build(spec):
         return np.array(spec["v"], dtype=spec.get("dtype", "int64"))
     if k == "floats":
         return np.array([float(v) for v in spec["v"]], dtype=float)
+    if k == "floats2":
+        return np.array(spec["v"], dtype=float).reshape(-1, 2)
     if k == "bools":
         return np.array(spec["v"], dtype=bool)
     if k == "ragged":
@@ -283,7 +288,29 @@ def build(spec):
         return PWM.from_dict({a: list(v) for a, v in spec["v"].items()})
     if k == "file":
         return build_file(spec)
+    if k == "path":
+        suffix = "." + spec["fmt"] + (".gz" if spec.get("gz") else "")
+        p = _path(suffix)
+        with open(p, "wb") as f:
+            f.write(file_bytes(spec))
+        _created.append(p)
+        return PathArg(p)
     raise KeyError(k)
+
+
+_created = []
+
+
+class PathArg(str):
+    """a file name argument; its snapshot is the bytes of the file"""
+
+
+def _cleanup_paths():
+    while _created:
+        p = _created.pop()
+        for q in (p, p + ".fai"):
+            if os.path.exists(q):
+                os.remove(q)
 
 
 def file_bytes(spec):
@@ -311,7 +338,8 @@ def build_file(spec):
             if spec.get("which") == "all":
                 return chunks
             return chunks[min(spec.get("which", 0), len(chunks) - 1)] if chunks else bnp.open(p, **kw).read()
-        return bnp.open(p, **kw).read()
+        d = bnp.open(p, **kw).read()
+        return d.get_data_object() if spec.get("eager") and _is_lazy(d) else d
     finally:
         os.remove(p)
 
@@ -466,6 +494,179 @@ def registry():
     R["np.concatenate(chunks).write"] = (lambda chs: written_bytes(np.concatenate(chs)), ["chunks"])
     R["bnp.replace(chunk)"] = (lambda ch: _replace_int(ch), ["chunk"])
     R["count_entries/len(chunk)"] = (lambda ch: len(ch), ["chunk"])
+    return registry2(R)
+
+
+def _stream(items):
+    from bionumpy.streams import BnpStream
+    return BnpStream(iter(items))
+
+
+def _dstream(tables):
+    from bionumpy.streams import NpDataclassStream
+    return NpDataclassStream(iter(tables), dataclass=type(tables[0]) if tables else None)
+
+
+def _consume(x):
+    return [snap(v, result=True) for v in x]
+
+
+def registry2(R):
+    """second batch: every further public callable reachable from bionumpy.__all__ and the io / streams /
+    genomic-data / variants / util entry points"""
+    bnp = B()
+    from bionumpy.io import strops
+    from bionumpy.arithmetics import intervals as iv, bedgraph as bg
+    from bionumpy.arithmetics import similarity_measures as sm
+    import bionumpy.arithmetics as ar
+    from bionumpy.io import delimited_buffers as db
+    from bionumpy.io.matrix_dump import matrix_to_csv, parse_matrix, read_matrix
+    from bionumpy.io.indexed_fasta import create_index
+    from bionumpy.string_array import as_string_array, StringArray
+    from bionumpy.encodings.string_encodings import StringEncoding
+    from bionumpy.encodings.kmer_encodings import KmerEncoding
+    from bionumpy.encodings import QualityEncoding
+    from bionumpy.sequence.position_weight_matrix import PWM
+    from bionumpy.sequence.string_matcher import StringMatcher, RegexMatcher
+    from bionumpy.sequence.kmers import KmerEncoder
+    from bionumpy.streams.chunk_entries import chunk_entries
+    from bionumpy.bnpdataclass.bnpdataclass import dynamic_concatenate
+    from bionumpy.util import interleave
+    import bionumpy.variants as va
+    # --- encoded arrays as NumPy-like objects
+    R["encoded.copy"] = (lambda a: a.copy(), ["ragged_text1", "flat_text1", "dna_enc1"])
+    R["encoded.ravel"] = (lambda a: a.ravel(), ["ragged_text1", "dna_enc1"])
+    R["encoded.raw"] = (lambda a: a.raw(), ["ragged_text1", "flat_text1", "dna_enc1"])
+    R["encoded.lengths"] = (lambda a: a.lengths, ["ragged_text1", "dna_enc1"])
+    R["encoded[::-1]"] = (lambda a: a[::-1], ["ragged_text1", "flat_text1"])
+    R["encoded[:, ::-1]"] = (lambda a: a[:, ::-1], ["ragged_text1", "dna_enc1"])
+    R["encoded != str"] = (lambda a, s: a != s, ["ragged_text+char", "flat_text+sep"])
+    R["repr(encoded)"] = (lambda a: repr(a), ["ragged_text1", "flat_text1", "dna_enc1"])
+    R["str(encoded)"] = (lambda a: str(a), ["ragged_text1", "flat_text1"])
+    R["len/shape/size(encoded)"] = (lambda a: (len(a), a.shape if hasattr(a, "shape") else None, a.size), ["ragged_text1", "flat_text1"])
+    R["np.append(encoded)"] = (lambda a, b: np.append(a, b), ["two_flat_text"])
+    R["np.insert(encoded)"] = (lambda a, b: np.insert(a, 0, b), ["two_flat_text"])
+    R["encoded.reshape"] = (lambda a: a.reshape(-1, 1), ["flat_text1"])
+    R["np.where(mask, enc, enc)"] = (lambda a, b: np.where(np.arange(min(len(a), len(b))) % 2 == 0, a[:min(len(a), len(b))], b[:min(len(a), len(b))]), ["two_flat_text"])
+    R["encoded == encoded"] = (lambda a, b: a[:min(len(a), len(b))] == b[:min(len(a), len(b))], ["two_flat_text"])
+    R["np.sort/argsort(encoded raw)"] = (lambda a: (np.sort(a.raw()), np.argsort(a.raw(), kind="stable")), ["flat_text1"])
+    R["encoded.encoding.get_labels"] = (lambda a: a.encoding.get_labels() if hasattr(a.encoding, "get_labels") else None, ["dna_enc1"])
+    R["ragged.sum/mean(axis=-1)"] = (lambda r: (r.sum(axis=-1), r.mean(axis=-1) if len(r) else None), ["ragged_ints1"])
+    R["ragged[index]"] = (lambda r, i: r[i], ["ragged_ints+index"])
+    R["np.concatenate(ragged)"] = (lambda a, b: np.concatenate([a, b]), ["two_ragged_ints"])
+    # --- string arrays
+    R["as_string_array"] = (lambda a: as_string_array(a), ["ragged_text1", "pylist_strs"])
+    R["string_array == str"] = (lambda a, s: as_string_array(a) == s, ["ragged_text+word"])
+    R["string_array ops"] = (lambda a: (lambda x: (x[::-1], x.lengths, np.concatenate([x, x]), x.tolist() if hasattr(x, "tolist") else None))(as_string_array(a)), ["ragged_text1"])
+    # --- encodings
+    R["StringEncoding.encode/decode"] = (lambda a: (lambda e: (lambda c: (c, e.decode(c)))(e.encode(a)))(StringEncoding(["chr1", "chr2", "chr10", "chrX"])), ["chrom_names"])
+    R["KmerEncoding.decode(get_kmers)"] = (lambda a, k: (lambda km: km.encoding.to_string(int(km.raw().ravel()[0])) if km.size else None)(bnp.get_kmers(a, k)), ["dna_enc+k"])
+    R["QualityEncoding.decode"] = (lambda a: QualityEncoding.decode(QualityEncoding.encode(a)), ["quality_text"])
+    R["BaseEncoding.encode/decode"] = (lambda a: bnp.BaseEncoding.decode(bnp.BaseEncoding.encode(a)), ["ragged_text1"])
+    R["AlphabetEncoding(custom)"] = (lambda a: bnp.as_encoded_array(a, bnp.encodings.AlphabetEncoding("ACGTN")), ["dna_base1"])
+    R["GenotypeRowEncoding.decode"] = (lambda a: (lambda E: E.decode(E.encode(a)))(__import__("bionumpy.encodings.vcf_encoding", fromlist=["x"]).GenotypeRowEncoding), ["genotype_rows"])
+    # --- sequence machinery
+    R["PWM.from_dict/counts"] = (lambda d: (snap(PWM.from_dict(d)), snap(PWM.from_counts(d))), ["pwm_dict"])
+    R["PWM.calculate_score(s)"] = (lambda a, p: (p.calculate_score(a[0]) if len(a) and len(a[0]) == p.window_size else None, p.calculate_scores(a[0]) if len(a) else None), ["dna_enc+pwm"])
+    R["PositionWeightMatrix.rolling_window"] = (lambda a, p: __import__("bionumpy.sequence.position_weight_matrix", fromlist=["x"]).PositionWeightMatrix(p).rolling_window(a), ["dna_enc+pwm"])
+    R["StringMatcher.rolling_window"] = (lambda a, s: StringMatcher(s, bnp.DNAEncoding).rolling_window(a), ["dna_enc+pattern"])
+    R["RegexMatcher"] = (lambda a, s: RegexMatcher(s, bnp.DNAEncoding).rolling_window(a), ["dna_enc+regex"])
+    R["KmerEncoder.rolling_window"] = (lambda a, k: KmerEncoder(k, bnp.DNAEncoding).rolling_window(a), ["dna_enc+k"])
+    R["Minimizers.rolling_window"] = (lambda a, k, w: __import__("bionumpy.sequence.minimizers", fromlist=["x"]).Minimizers(w, KmerEncoder(k, bnp.DNAEncoding)).rolling_window(a), ["dna_enc+k+w"])
+    R["count_encoded(weights)"] = (lambda a, w: bnp.count_encoded(a.ravel(), weights=w[:a.size] if len(w) >= a.size else None), ["dna_enc+weights"])
+    R["count_encoded(axis=-1)"] = (lambda a: snap(bnp.count_encoded(a, axis=-1), result=True), ["dna_enc1"])
+    R["EncodedCounts ops"] = (lambda a: (lambda c: (c.counts.copy(), c.proportions, c.most_common(2) if hasattr(c, "most_common") else None, snap(c + c, result=True)))(bnp.count_encoded(a.ravel())), ["dna_enc1"])
+    R["get_sequences"] = (lambda s, t: bnp.sequence.get_sequences(s, t), ["refseq+intervals"])
+    R["get_strand_specific_sequences"] = (lambda s, t: bnp.sequence.get_strand_specific_sequences(s, t), ["refseq+stranded_intervals"])
+    R["simulate.simulate_sequences"] = (lambda n: __import__("bionumpy.simulate", fromlist=["x"]).simulate_sequences("ACGT", {"a": n, "b": 3}, np.random.default_rng(1)), ["small_n"])
+    # --- interval arithmetic, second batch
+    R["intervals.extend"] = (lambda t, n: iv.extend(t, n), ["intervals+n"])
+    R["bedgraph.get_pileup"] = (lambda t, n: bg.get_pileup(t, n), ["chr_intervals+size"])
+    R["bedgraph.value_hist"] = (lambda t: bg.value_hist(t), ["bedgraph_int"])
+    R["bedgraph.from_runlength_array"] = (lambda t, n: bg.from_runlength_array("chr1", ar.get_pileup(t, n)), ["chr_intervals+size"])
+    R["get_contingency_table"] = (lambda a, b, n: sm.get_contingency_table(a, b, n), ["two_chr_intervals+size"])
+    R["jaccard(stream order)"] = (lambda sizes, a, b: ar.jaccard(sizes, a, b), ["sizes+two_sorted_intervals"])
+    R["count_reference_length"] = (lambda ch: bnp.alignments.count_reference_length(ch.cigar_op, ch.cigar_length), ["bam_chunk"])
+    R["merge_intervals(grouped stream)"] = (lambda ts: _consume(ar.merge_intervals(bnp.groupby(_dstream(ts), "chromosome"))), ["sorted_tables_list"])
+    R["sort_intervals(sort_order)"] = (lambda t: ar.sort_intervals(t, sort_order=["chr1", "chr2", "chr10", "chrX"]), ["intervals1"])
+    R["get_pileup(stranded/bed6)"] = (lambda t, n: ar.get_pileup(t, n), ["chr_bed6+size"])
+    # --- tables, second batch
+    R["table.todict/toiter"] = (lambda t: (len(list(t.toiter())),), ["table1"])
+    R["table.shallow_tuple"] = (lambda t: t.shallow_tuple(), ["table1"])
+    R["table.astype"] = (lambda t: t.astype(bnp.datatypes.Interval), ["stranded_intervals1"])
+    R["dataclasses.replace(table)"] = (lambda t, v: dataclasses.replace(t, stop=np.asarray(t.start) + 1), ["table+newstart"])
+    R["table == / len / iter"] = (lambda t: (len(t), [dataclasses.astuple(e) for e in t][:2]), ["intervals1"])
+    R["from_entry_tuples"] = (lambda rows: bnp.datatypes.Interval.from_entry_tuples([tuple(r) for r in rows]), ["interval_tuples"])
+    R["from_dict/todict roundtrip"] = (lambda t: type(t).from_dict({f.name: getattr(t, f.name) for f in dataclasses.fields(t)}), ["intervals1"])
+    R["from_data_frame(topandas)"] = (lambda t: type(t).from_data_frame(t.topandas()), ["intervals1"])
+    R["dynamic_concatenate"] = (lambda ts: dynamic_concatenate(iter(ts)), ["sorted_tables_list"])
+    R["single_entry"] = (lambda c, a, b: bnp.datatypes.Interval.single_entry(c, a, b), ["single_interval"])
+    R["table.get_context/has_context"] = (lambda t: (t.has_context("header"),), ["table1"])
+    R["np.argsort/lexsort(columns)"] = (lambda t: (np.argsort(t.start, kind="stable"), np.lexsort((t.stop, t.start))), ["intervals1"])
+    R["table[table.start > x]"] = (lambda t: t[np.asarray(t.start) > 10], ["table_with_start"])
+    R["get_bufferclass_for_datatype"] = (lambda t: bnp.io.get_bufferclass_for_datatype(type(t)).from_data(t), ["intervals1", "stranded_intervals1"])
+    for bufname, kind in [("BedBuffer", "intervals1"), ("Bed6Buffer", "bed6_table"), ("BdgBuffer", "bedgraph1"), ("NarrowPeakBuffer", "narrowpeak_table"),
+                          ("FastQBuffer", "fastq_table"), ("TwoLineFastaBuffer", "seq_table"), ("MultiLineFastaBuffer", "seq_table"),
+                          ("GfaSequenceBuffer", "seq_table"), ("GFFBuffer", "gff_table"), ("VCFWithInfoAsStringBuffer", "vcf_table"), ("SAMBuffer", "sam_table"),
+                          ("Bed12Buffer", "bed12_table"), ("ChromosomeSizeBuffer", "sizes_table")]:
+        R[bufname + ".from_data"] = ((lambda bn: (lambda t: _bufcls(bn).from_data(t)))(bufname), [kind])
+    # --- streams
+    R["bnp.bincount(stream)"] = (lambda xs: bnp.bincount(_stream(xs)), ["small_int_arrays"])
+    R["bnp.bincount(stream, minlength)"] = (lambda xs: bnp.bincount(_stream(xs), minlength=12), ["small_int_arrays"])
+    R["bnp.histogram(stream)"] = (lambda xs: bnp.histogram(_stream(xs), bins=4, range=(0, 10)), ["small_int_arrays"])
+    R["bnp.mean(stream)"] = (lambda xs: bnp.mean(_stream(xs)), ["float_arrays"])
+    R["bnp.quantile"] = (lambda a, n: bnp.quantile(a, [0.25, 0.5]), ["small_ints+minlength"])
+    R["bnp.groupby(stream)"] = (lambda ts: [(str(k), snap(v)) for k, v in bnp.groupby(_dstream(ts), "chromosome")], ["sorted_tables_list"])
+    R["chunk_entries"] = (lambda ts, n: _consume(chunk_entries(_dstream(ts), n)), ["sorted_tables_list+n"])
+    R["streamable fn(stream)"] = (lambda ts: _consume(bnp.sequence.translate_dna_to_protein(_dstream(ts))), ["codon_entries_list"])
+    R["alignment_to_interval(stream)"] = (lambda chs: _consume(bnp.alignments.alignment_to_interval(_dstream(chs))), ["bam_chunks_list"])
+    R["NpDataclassStream iterate"] = (lambda ts: _consume(_dstream(ts)), ["sorted_tables_list"])
+    R["count_overlap(chromosome_map)"] = (lambda a, b: ar.count_overlap(a, b), ["two_intervals"])
+    # --- io entry points taking a file name
+    R["bnp.open(path).read()"] = (lambda p: snap(bnp.open(str(p)).read(), result=True), ["path"])
+    R["bnp.open(path).read_chunks()"] = (lambda p: _consume(bnp.open(str(p)).read_chunks(min_chunk_size=64)), ["path"])
+    R["bnp.open(path).read_chunk()"] = (lambda p: snap(bnp.open(str(p)).read_chunk(min_chunk_size=64), result=True), ["path"])
+    R["bnp.count_entries(path)"] = (lambda p: bnp.count_entries(str(p)), ["path"])
+    R["bnp.open(path, lazy=False)"] = (lambda p: snap(bnp.open(str(p), lazy=False).read(), result=True), ["path"])
+    R["bnp.read(path)"] = (lambda p: snap(__import__("bionumpy.io.files", fromlist=["x"]).read(str(p)), result=True), ["path"])
+    R["create_index(fasta)"] = (lambda p: create_index(str(p)), ["fasta_path"])
+    R["open_indexed[...]"] = (lambda p: (lambda f: [(k, snap(f[k][1:4])) for k in f.keys()])(bnp.open_indexed(str(p))), ["fasta_path"])
+    R["IndexedFasta.get_interval_sequences"] = (lambda p, t: bnp.open_indexed(str(p)).get_interval_sequences(t), ["fasta_path+intervals"])
+    R["IndexedFasta.get_contig_lengths"] = (lambda p: dict(bnp.open_indexed(str(p)).get_contig_lengths()), ["fasta_path"])
+    R["parse_matrix"] = (lambda a: snap(parse_matrix(a, rowname_type=None), result=True), ["matrix_text"])
+    R["matrix_to_csv"] = (lambda a: matrix_to_csv(a.astype(int), header=["a", "b"]), ["matrix2"])
+    R["read_matrix(path)"] = (lambda p: snap(read_matrix(str(p), rowname_type=None), result=True), ["matrix_path"])
+    R["read_motif(path)"] = (lambda p: snap(bnp.io.read_motif(str(p)), result=True), ["jaspar_path"])
+    R["Genome.from_file"] = (lambda p: snap(bnp.Genome.from_file(str(p))), ["sizes_path"])
+    R["genome.read_intervals"] = (lambda g, p: snap(g.read_intervals(str(p))), ["genome+bed_path"])
+    R["genome.read_track"] = (lambda g, p: snap(g.read_track(str(p))), ["genome+bdg_path"])
+    R["genome.read_locations"] = (lambda g, p: snap(g.read_locations(str(p))), ["genome+vcf_path"])
+    R["genome.read_sequence[intervals]"] = (lambda g, p, gi: g.read_sequence(str(p))[gi], ["genome+fasta_path+gintervals"])
+    R["genome.read_annotation"] = (lambda g, p: (lambda a: (snap(a.genes), snap(a.transcripts), snap(a.exons)))(g.read_annotation(str(p))), ["genome+gtf_path"])
+    # --- genomic data, second batch
+    R["genome.get_genome_context/size"] = (lambda g: (snap(g.get_genome_context()), g.size), ["genome1"])
+    R["GenomicIntervals.from_fields"] = (lambda g, t: snap(bnp.genomic_data.GenomicIntervals.from_fields(g.get_genome_context(), t.chromosome, t.start, t.stop)), ["genome+intervals"])
+    R["gi.get_data_field/start/stop"] = (lambda gi: (gi.start, gi.stop, gi.chromosome, gi.get_data_field("start")), ["gintervals"])
+    R["gi.get_location(stranded)"] = (lambda gi: snap(gi.get_location("start")), ["gintervals_stranded+len0"])
+    R["gi.get_pileup.sum / mask ops"] = (lambda gi: (gi.get_pileup().sum(), snap(gi.get_mask() & gi.get_mask()), snap(~gi.get_mask())), ["gintervals"])
+    R["track.extract_chromsome"] = (lambda t: np.asarray(t.extract_chromsome("chr1").to_array()) if hasattr(t.extract_chromsome("chr1"), "to_array") else np.asarray(t.extract_chromsome("chr1")), ["track"])
+    R["track comparisons/where"] = (lambda t: (snap(t > 1), snap(t * 2 - t), snap(np.sqrt(t * t))), ["track"])
+    R["track[gi].mean/sum/max(axis=-1)"] = (lambda t, gi: (lambda x: (x.sum(axis=-1), x.max(axis=-1) if len(x) else None))(t[gi]), ["track+gintervals"])
+    R["track.to_dict/get_data"] = (lambda t: (snap(t.to_dict()), snap(t.get_data())), ["track"])
+    R["np.histogram/bincount(track)"] = (lambda t: snap(np.histogram(t, bins=3, range=(0, 10)), result=True), ["track"])
+    R["GenomicArray.from_bedgraph"] = (lambda g, t: snap(bnp.genomic_data.GenomicArray.from_bedgraph(t, g.get_genome_context())), ["genome+bedgraph"])
+    R["gl.get_windows.extract"] = (lambda t, gl: snap(t[gl.get_windows(flank=2)]), ["track+glocations"])
+    R["BinnedGenome.count"] = (lambda g, gl: (lambda b: (b.count(gl), snap(b.count_dict, result=True)))(bnp.genomic_data.BinnedGenome(g.get_genome_context(), bin_size=10)), ["genome+locations"])
+    R["gi.sorted/merged(stranded)"] = (lambda gi: snap(gi.merged()), ["gintervals_stranded+len0"])
+    R["genome.get_intervals(bed6 chunk)"] = (lambda g, ch: snap(g.get_intervals(ch, stranded=True)), ["genome+bed6_chunk"])
+    R["genome.get_track(bdg chunk)"] = (lambda g, ch: snap(g.get_track(ch)), ["genome+bdg_chunk"])
+    # --- variants
+    R["apply_variants_to_sequence"] = (lambda s, v: va.apply_variants_to_sequence(s, v), ["flatseq+snps"])
+    R["apply_variants"] = (lambda se, v: va.apply_variants(se, v), ["seqentries+snps"])
+    R["count_mutation_types"] = (lambda v, s: snap(va.count_mutation_types(v, s), result=True), ["snps+flatseq"])
+    # --- util
+    R["util.interleave"] = (lambda a, b: interleave(a, b), ["two_int_arrays"])
+    R["bnp.replace(kwargs several)"] = (lambda t, v: bnp.replace(t, start=v, stop=v + 1), ["table+newstart"])
     return R
 
 
@@ -863,6 +1064,187 @@ def gen_args(kind, rng):
         return [s]
     if kind == "bam_chunk":
         return [file_spec(rng, fmt="bam")]
+    # ---- second batch of generators
+    if kind == "ragged_ints1":
+        return [{"k": "ragged", "rows": [[rng.randrange(0, 50) for _ in range(rng.choice([0, 1, 2, 4]))] for _ in range(rng.choice([1, 2, 4]))]}]
+    if kind == "ragged_ints+index":
+        rows = [[rng.randrange(0, 50) for _ in range(rng.choice([0, 1, 2, 4]))] for _ in range(rng.choice([2, 3, 5]))]
+        idx = rng.choice([{"k": "bools", "v": [rng.random() < 0.5 for _ in rows]}, {"k": "ints", "v": [rng.randrange(len(rows)) for _ in range(3)]}, py(0)])
+        return [{"k": "ragged", "rows": rows}, idx]
+    if kind == "two_ragged_ints":
+        return [{"k": "ragged", "rows": [[rng.randrange(9) for _ in range(rng.choice([0, 1, 3]))] for _ in range(rng.choice([1, 2]))]} for _ in range(2)]
+    if kind == "chrom_names":
+        return [_strs([rng.choice(CHROMS) for _ in range(rng.choice([1, 2, 5]))])]
+    if kind == "pwm_dict":
+        L = rng.choice([1, 2, 3])
+        return [{"k": "dict", "v": {a: [rng.choice([1, 2, 4, 7]) for _ in range(L)] for a in "ACGT"}}]
+    if kind == "dna_enc+pattern":
+        return [_strs([_dna(rng, rng.choice([3, 5, 9])) for _ in range(rng.choice([1, 2, 4]))], "DNA"), py(_dna(rng, rng.choice([1, 2, 3])) or "A")]
+    if kind == "dna_enc+regex":
+        return [_strs([_dna(rng, rng.choice([4, 6, 9])) for _ in range(rng.choice([1, 2, 4]))], "DNA"), py(rng.choice(["AC", "A[CG]T", "G.A", "[AT][AT]"]))]
+    if kind == "dna_enc+weights":
+        rows = [_dna(rng, rng.choice([1, 3, 5])) for _ in range(rng.choice([1, 2, 3]))]
+        return [_strs(rows, "DNA"), {"k": "floats", "v": [rng.choice([0.5, 1.0, 2.0]) for _ in range(sum(map(len, rows)))]}]
+    if kind in ("refseq+intervals", "refseq+stranded_intervals"):
+        n = rng.choice([1, 2, 4])
+        a = [rng.randrange(0, 20) for _ in range(n)]
+        cols = {"chromosome": _strs(["chr1"] * n), "start": {"k": "ints", "v": a}, "stop": {"k": "ints", "v": [x + rng.randrange(1, 9) for x in a]}}
+        cls = "Interval"
+        if kind.endswith("stranded_intervals"):
+            cols["strand"] = _strs([rng.choice("+-") for _ in range(n)])
+            cls = "StrandedInterval"
+        return [{"k": "str", "s": _dna(rng, 30), "enc": "DNA"}, {"k": "table", "cls": cls, "cols": cols}]
+    if kind == "small_n":
+        return [py(rng.choice([1, 4, 9]))]
+    if kind == "intervals+n":
+        return [_intervals(rng), py(rng.choice([1, 5, 20]))]
+    if kind == "bedgraph_int":
+        t = _bedgraph(rng)
+        t["cols"]["value"] = {"k": "ints", "v": [rng.randrange(0, 5) for _ in t["cols"]["start"]["v"]]}
+        return [t]
+    if kind == "sorted_tables_list":
+        return [{"k": "list", "items": [_intervals(rng, sorted_=True, one_chrom=True) for _ in range(rng.choice([1, 2, 3]))]}]
+    if kind == "sorted_tables_list+n":
+        return [{"k": "list", "items": [_intervals(rng, sorted_=True, one_chrom=True) for _ in range(rng.choice([1, 2, 3]))]}, py(rng.choice([1, 2, 3, 7]))]
+    if kind == "chr_bed6+size":
+        t = _intervals(rng, one_chrom=True, stranded=True, cls="Bed6")
+        n = len(t["cols"]["start"]["v"])
+        strand = t["cols"].pop("strand")
+        t["cols"]["name"] = _strs([f"n{i}" for i in range(n)])
+        t["cols"]["score"] = {"k": "ints", "v": [rng.randrange(100) for _ in range(n)]}
+        t["cols"]["strand"] = strand
+        return [t, py(100)]
+    if kind == "interval_tuples":
+        return [py([[rng.choice(CHROMS), rng.randrange(0, 9), rng.randrange(10, 30)] for _ in range(rng.choice([1, 2, 4]))])]
+    if kind == "single_interval":
+        return [py(rng.choice(CHROMS)), py(rng.randrange(0, 9)), py(rng.randrange(10, 30))]
+    if kind == "table_with_start":
+        return [rng.choice([_intervals(rng), _intervals(rng, stranded=True), _bedgraph(rng)])]
+    if kind == "bed6_table":
+        return [gen_args("chr_bed6+size", rng)[0]]
+    if kind == "bedgraph1":
+        return [_bedgraph(rng)]
+    if kind == "seq_table":
+        n = rng.choice([1, 2, 4])
+        return [{"k": "table", "cls": "SequenceEntry", "cols": {"name": _strs([f"s{i}" for i in range(n)]), "sequence": _strs([_dna(rng, rng.choice([1, 3, 7, 90])) for _ in range(n)])}}]
+    if kind == "fastq_table":
+        n = rng.choice([1, 2, 4])
+        seqs = [_dna(rng, rng.choice([1, 3, 7])) for _ in range(n)]
+        return [{"k": "table", "cls": "SequenceEntryWithQuality", "cols": {"name": _strs([f"q{i}" for i in range(n)]), "sequence": _strs(seqs),
+                 "quality": {"k": "ragged", "rows": [[rng.randrange(0, 40) for _ in s] for s in seqs]}}}]
+    if kind in ("narrowpeak_table", "gff_table", "vcf_table", "sam_table", "bed12_table", "sizes_table"):
+        fmt = {"narrowpeak_table": "narrowPeak", "gff_table": "gff", "vcf_table": "vcf", "sam_table": "sam", "bed12_table": "bed", "sizes_table": "sizes"}[kind]
+        for _ in range(50):
+            sp = file_spec(rng, fmt)
+            if fmt == "bed" and sp.get("buffer") != "Bed12Buffer":
+                continue
+            if fmt == "vcf" and sp.get("buffer"):
+                continue
+            if fmt == "vcf":
+                sp["buffer"] = "VCFWithInfoAsStringBuffer"
+            sp.pop("chunk", None)
+            sp["eager"] = True
+            return [sp]
+    if kind == "small_int_arrays":
+        return [{"k": "list", "items": [{"k": "ints", "v": [rng.randrange(0, 9) for _ in range(rng.choice([1, 4, 9]))]} for _ in range(rng.choice([1, 2, 3]))]}]
+    if kind == "float_arrays":
+        return [{"k": "list", "items": [{"k": "floats", "v": [rng.choice([0.0, 1.5, -2.0, 8.25]) for _ in range(rng.choice([1, 4]))]} for _ in range(rng.choice([1, 2, 3]))]}]
+    if kind == "path":
+        sp = file_spec(rng, fmt=rng.choice([f for f in FORMATS if f != "bam"]))
+        sp.pop("chunk", None)
+        sp["k"] = "path"
+        if sp.get("buffer"):
+            sp = file_spec(rng, fmt=rng.choice(["bdg", "narrowPeak", "gff", "sam", "fq", "sizes", "pairs"]))
+            sp.pop("chunk", None)
+            sp["k"] = "path"
+        return [sp]
+    if kind in ("fasta_path", "fasta_path+intervals"):
+        lines = []
+        for c in ["chr1", "chr2"]:
+            s = _dna(rng, rng.choice([12, 25, 31]))
+            lines.append(">" + c)
+            lines += [s[j:j + 10] for j in range(0, len(s), 10)]
+        p = {"k": "path", "fmt": "fa", "text": "\n".join(lines) + "\n"}
+        if kind == "fasta_path":
+            return [p]
+        n = rng.choice([1, 2, 3])
+        a = [rng.randrange(0, 6) for _ in range(n)]
+        return [p, {"k": "table", "cls": "Interval", "cols": {"chromosome": _strs([rng.choice(["chr1", "chr2"]) for _ in range(n)]), "start": {"k": "ints", "v": a},
+                                                              "stop": {"k": "ints", "v": [x + rng.randrange(1, 6) for x in a]}}}]
+    if kind == "matrix_text":
+        return [{"k": "str", "s": "a\tb\n" + "".join(f"{rng.choice(['1.5', '-2', '3e2', '0.25'])}\t{rng.choice(['1', '2.5', '-1e-1'])}\n" for _ in range(rng.choice([1, 2, 3])))}]
+    if kind == "matrix2":
+        return [{"k": "floats2", "v": [[rng.choice([1.5, -2.0, 0.25]), rng.choice([1.0, 2.5])] for _ in range(rng.choice([1, 2, 3]))]}]
+    if kind == "matrix_path":
+        return [{"k": "path", "fmt": "tsv", "text": "a\tb\n" + "".join(f"{rng.choice(['1.5', '-2', '3e2'])}\t{rng.choice(['1', '2.5'])}\n" for _ in range(rng.choice([1, 2, 3])))}]
+    if kind == "jaspar_path":
+        L = rng.choice([2, 3, 4])
+        body = ">MA0001.1 test\n" + "".join(f"{a}  [ " + " ".join(str(rng.randrange(1, 20)) for _ in range(L)) + " ]\n" for a in "ACGT")
+        return [{"k": "path", "fmt": "jaspar", "text": body}]
+    if kind == "sizes_path":
+        return [{"k": "path", "fmt": "sizes", "text": "".join(f"{c}\t{SIZES[c]}\n" for c in CHROMS)}]
+    if kind in ("genome+bed_path", "genome+bdg_path", "genome+gtf_path"):
+        rows = sorted((rng.choice(CHROMS), rng.randrange(0, 20)) for _ in range(rng.choice([1, 2, 4])))
+        rows.sort(key=lambda r: (CHROMS.index(r[0]), r[1]))
+        if kind == "genome+bed_path":
+            text = "".join(f"{c}\t{a}\t{a + rng.randrange(1, 9)}\n" for c, a in rows)
+            return [{"k": "genome", "sizes": SIZES}, {"k": "path", "fmt": "bed", "text": text}]
+        if kind == "genome+bdg_path":
+            t = _bedgraph(rng)["cols"]
+            text = "".join(f"{c}\t{a}\t{b}\t{v}\n" for c, a, b, v in zip(t["chromosome"]["rows"], t["start"]["v"], t["stop"]["v"], t["value"]["v"]))
+            return [{"k": "genome", "sizes": SIZES}, {"k": "path", "fmt": "bdg", "text": text}]
+        lines = []
+        for c, a in rows:
+            for ft in ("gene", "transcript", "exon"):
+                lines.append("\t".join([c, "src", ft, str(a + 1), str(a + 9), ".", rng.choice("+-"), ".", 'gene_id "g%d"; transcript_id "t%d"; exon_id "e%d";' % (a, a, a)]))
+        return [{"k": "genome", "sizes": SIZES}, {"k": "path", "fmt": "gtf", "text": "\n".join(lines) + "\n"}]
+    if kind == "genome+fasta_path+gintervals":
+        text = "".join(f">{c}\n" + _dna(rng, SIZES[c]) + "\n" for c in CHROMS)
+        return [{"k": "genome", "sizes": SIZES}, {"k": "path", "fmt": "fa", "text": text}, {"k": "gintervals", "sizes": SIZES, "table": _intervals(rng, sorted_=True)}]
+    if kind == "genome+vcf_path":
+        rows = sorted((rng.choice(CHROMS), rng.randrange(1, 20)) for _ in range(rng.choice([1, 2, 4])))
+        rows.sort(key=lambda r: (CHROMS.index(r[0]), r[1]))
+        text = "##fileformat=VCFv4.2\n#CHROM\tPOS\tID\tREF\tALT\tQUAL\tFILTER\tINFO\n" + "".join(f"{c}\t{a}\t.\tA\tC\t.\t.\t.\n" for c, a in rows)
+        return [{"k": "genome", "sizes": SIZES}, {"k": "path", "fmt": "vcf", "text": text}]
+    if kind == "codon_entries_list":
+        return [{"k": "list", "items": [gen_args("codon_entries", rng)[0] for _ in range(rng.choice([1, 2, 3]))]}]
+    if kind == "bam_chunks_list":
+        return [{"k": "list", "items": [file_spec(rng, fmt="bam") for _ in range(rng.choice([1, 2]))]}]
+    if kind == "genome1":
+        return [{"k": "genome", "sizes": SIZES}]
+    if kind == "gintervals_stranded+len0":
+        return [{"k": "gintervals", "sizes": SIZES, "table": _intervals(rng, sorted_=True, stranded=True), "stranded": True}]
+    if kind == "genome+dense_dict":
+        return [{"k": "genome", "sizes": SIZES}, {"k": "dict", "v": {c: {"k": "ints", "v": [rng.randrange(0, 4) for _ in range(SIZES[c])]} for c in CHROMS}}]
+    if kind == "track+glocations":
+        n = rng.choice([1, 2, 4])
+        cs = [rng.choice(CHROMS) for _ in range(n)]
+        return [{"k": "track", "sizes": SIZES, "table": _bedgraph(rng)},
+                {"k": "glocations", "sizes": SIZES, "table": {"k": "table", "cls": "LocationEntry", "cols": {"chromosome": _strs(cs), "position": {"k": "ints", "v": [rng.randrange(5, SIZES[c] - 5) for c in cs]}}}}]
+    if kind == "genome+glocations":
+        n = rng.choice([1, 2, 4])
+        cs = [rng.choice(CHROMS) for _ in range(n)]
+        return [{"k": "genome", "sizes": SIZES},
+                {"k": "glocations", "sizes": SIZES, "table": {"k": "table", "cls": "LocationEntry", "cols": {"chromosome": _strs(cs), "position": {"k": "ints", "v": [rng.randrange(0, SIZES[c]) for c in cs]}}}}]
+    if kind in ("genome+bed6_chunk", "genome+bdg_chunk"):
+        for _ in range(100):
+            sp = file_spec(rng, "bed" if kind == "genome+bed6_chunk" else "bdg")
+            if kind == "genome+bed6_chunk" and sp.get("buffer") != "Bed6Buffer":
+                continue
+            return [{"k": "genome", "sizes": {c: 200 for c in CHROMS}}, sp]
+    if kind in ("flatseq+snps", "seqentries+snps", "snps+flatseq"):
+        seq = _dna(rng, 20)
+        pos = sorted(rng.sample(range(20), rng.choice([1, 2, 4])))
+        snps = {"k": "table", "cls": "SNP", "cols": {"chromosome": _strs(["chr1"] * len(pos)), "position": {"k": "ints", "v": pos},
+                                                   "ref_seq": _strs([seq[p] for p in pos]), "alt_seq": _strs([rng.choice("ACGT") for _ in pos])}}
+        if kind == "flatseq+snps":
+            return [{"k": "str", "s": seq, "enc": "DNA"}, snps]
+        if kind == "snps+flatseq":
+            return [snps, {"k": "str", "s": seq, "enc": "DNA"}]
+        return [{"k": "table", "cls": "SequenceEntry", "cols": {"name": _strs(["chr1"]), "sequence": _strs([seq])}}, snps]
+    if kind == "two_int_arrays":
+        n = rng.choice([1, 3, 5])
+        return [{"k": "ints", "v": _ints(rng, n)}, {"k": "ints", "v": _ints(rng, n)}]
     raise KeyError(kind)
 
 
@@ -871,12 +1253,13 @@ def gen_args(kind, rng):
 def cases(tier, rng):
     big = tier in ("thorough", "widen")
     R = registry()
-    per = 400 if big else 20
+    per = 250 if big else 20
     for name, (fn, kinds) in R.items():
         for kind in kinds:
             reps = per * (4 if kind in ("chunk", "chunks") else 1)
             for _ in range(reps):
-                yield {"op": "call", "fn": name, "gen": kind, "args": gen_args(kind, rng), "views": rng.random() < 0.5}
+                yield {"op": "call", "fn": name, "gen": kind, "args": gen_args(kind, rng),
+                       "variant": rng.choice(["plain", "plain", "views", "views", "readonly", "empty"])}
     # routines that are also executed in the Lean heap model
     for _ in range(200 if big else 40):
         yield {"op": "m_str_to_int", "rows": [_int_str(rng) for _ in range(rng.choice([1, 2, 3, 6]))]}
@@ -921,13 +1304,87 @@ def viewify(a):
         return a, None
 
 
-def observe(fn, specs, views=False):
+def empty_spec(s):
+    """the same argument with zero rows"""
+    if not isinstance(s, dict):
+        return s
+    k = s.get("k")
+    if k == "strs":
+        return dict(s, rows=[])
+    if k == "str":
+        return dict(s, s="")
+    if k in ("ints", "floats", "bools"):
+        return dict(s, v=[])
+    if k == "ragged":
+        return dict(s, rows=[])
+    if k == "list":
+        return dict(s, items=[empty_spec(x) for x in s["items"]])
+    if k == "table":
+        return dict(s, cols={n: empty_spec(c) for n, c in s["cols"].items()})
+    if k in ("gintervals", "glocations", "track"):
+        return dict(s, table=empty_spec(s["table"]))
+    if k in ("file", "path") and s.get("fmt") != "bam":
+        keep = [l for l in s["text"].split("\n") if l.startswith(("##", "#CHROM", "@HD", "@SQ"))]
+        return dict(s, text="".join(l + "\n" for l in keep))
+    if k in ("file", "path"):
+        return dict(s, recs=[])
+    return s
+
+
+def _leaf_arrays(x, depth=0):
+    """the NumPy arrays an argument is made of"""
+    from bionumpy.encoded_array import EncodedArray
+    from bionumpy.bnpdataclass import BNPDataClass
+    from npstructures import RaggedArray
+    if depth > 6 or _is_lazy(x):
+        return
+    if isinstance(x, np.ndarray):
+        yield x
+    elif isinstance(x, RaggedArray):
+        d = x.ravel()
+        yield from _leaf_arrays(d, depth + 1)
+    elif isinstance(x, EncodedArray):
+        yield from _leaf_arrays(x.raw(), depth + 1)
+    elif isinstance(x, BNPDataClass):
+        for f in dataclasses.fields(x):
+            yield from _leaf_arrays(getattr(x, f.name), depth + 1)
+    elif isinstance(x, (list, tuple)):
+        for v in x:
+            yield from _leaf_arrays(v, depth + 1)
+    elif hasattr(x, "raw") and type(x).__name__ == "StringArray":
+        yield from _leaf_arrays(x.raw(), depth + 1)
+
+
+def observe(fn, specs, views=False, variant=None):
     """build the arguments (and a twin), snapshot, call twice, snapshot; returns the observation"""
+    try:
+        return _observe(fn, specs, views, variant)
+    finally:
+        _cleanup_paths()
+
+
+def _observe(fn, specs, views, variant):
+    import contextlib
+    with contextlib.redirect_stdout(open(os.devnull, "w")):
+        return _observe0(fn, specs, views, variant)
+
+
+def _observe0(fn, specs, views, variant):
+    if variant == "empty":
+        specs = [empty_spec(s) for s in specs]
+    views = views or variant == "views"
     try:
         args = [build(s) for s in specs]
     except Exception as e:      # the arguments could not be constructed: nothing to observe (counted in evidence)
         return {"unbuildable": type(e).__name__}
     bases = []
+    if variant == "readonly":
+        for a in args:
+            for arr in _leaf_arrays(a):
+                try:
+                    arr.setflags(write=False)
+                except ValueError:
+                    pass
     if views:
         for i, a in enumerate(args):
             v, b = viewify(a)
@@ -970,7 +1427,7 @@ def impl(c):
     if op == "call":
         fn = registry()[c["fn"]][0]
         try:
-            return observe(fn, c["args"], views=bool(c.get("views")))
+            return observe(fn, c["args"], views=bool(c.get("views")), variant=c.get("variant"))
         except Unknown as e:
             return {"err": "harness:unsnapshotable:" + str(e)}
     bnp = B()
@@ -1100,22 +1557,45 @@ def regenerate():
 _stats = {}
 
 
+def _aliases(fn, specs):
+    """does the result share memory with an argument? (informational: a view-returning function is not a violation of the
+    property, which exempts the caller's own later item assignment; the map is recorded so that a change of it is visible)"""
+    import contextlib
+    try:
+        with contextlib.redirect_stdout(open(os.devnull, "w")):
+            args = [build(s) for s in specs]
+            r = fn(*args)
+        ra = [a for a in _leaf_arrays(r) if a.size]
+        aa = [a for x in args for a in _leaf_arrays(x) if a.size]
+        return any(np.shares_memory(x, y) for x in ra for y in aa)
+    except Exception:
+        return None
+    finally:
+        _cleanup_paths()
+
+
 def extra_evidence():
-    """which registry entries actually return (a call that always raises exercises only the 'arguments unchanged' half)"""
+    """which registry entries actually return (a call that always raises exercises only the 'arguments unchanged' half),
+    and which return results that alias their arguments"""
     import random
     R = registry()
     rng = random.Random(12345)
-    returning, raising = [], []
+    returning, raising, aliasing = [], [], []
     for name, (fn, kinds) in R.items():
         ok = False
         for kind in kinds:
             for _ in range(4):
-                o = observe(fn, gen_args(kind, rng))
+                specs = gen_args(kind, rng)
+                o = observe(fn, specs)
                 if "raised" not in o and "unbuildable" not in o:
                     ok = True
+                    if _aliases(fn, specs):
+                        aliasing.append(name)
                     break
             if ok:
                 break
         (returning if ok else raising).append(name)
     return {"registry_functions": len(R), "registry_functions_returning": len(returning), "registry_always_raising_in_sample": raising,
+            "results_aliasing_an_argument_in_sample (informational)": sorted(set(aliasing)),
+            "argument_variants": ["plain", "views (base snapshotted)", "readonly", "empty (0 rows)"],
             "registry_entries": sorted(R), "formats": sorted(set(FORMATS)), "gen_probes": [p[0] for p in PROBES]}
